@@ -93,7 +93,7 @@ func safemapJob(name string, real bool, thorough bool) *job {
 		m := collection.NewSafeMap()
 		ref := map[any]any{}
 		nset := make([]int, nkeys)
-		fresh := 0          // churn keys: -1, -2, …
+		fresh := 0             // churn keys: -1, -2, …
 		fillLo, fillHi := 0, 0 // persistent keys present: 1000000+fillLo .. 1000000+fillHi-1
 		const fillBase = 1000000
 		phase := func() string {
